@@ -149,6 +149,7 @@ def shapes(tier="quick", seed=0):
     add("no-tags-no-opid", doc("NT", [op("/a/{x}", "get", None, None, [param("x", "path")]), op("/a/{x}", "post", None, None, [param("x", "path")], body_json(PRIMS["str"]))]), untagged=True)
     add("two-tags", doc("TT", [op("/tt", "get", "getTt", ["Users", "admin"]), op("/tt2", "get", "getTt2", ["admin"])]), multi_tag=True)
     add("tag-spellings", doc("TS", [op("/ts1", "get", "one", ["Data Sources"]), op("/ts2", "get", "two", ["data-sources"]), op("/ts3", "get", "three", ["data_sources"])]), tag_variants=True)
+    add("tag-majority-spelling", doc("TM", [op("/m1", "get", "one", ["datasources"]), op("/m2", "get", "two", ["datasources"]), op("/m3", "get", "three", ["DataSources"])]), tag_variants=True)
     add("opid-collisions", doc("OC", [op("/o1", "get", "list_all", ["o"]), op("/o2", "get", "listAll", ["o"]), op("/o3", "get", "list-all", ["o"]),
                                       op("/o4", "get", "get_a_2", ["o"]), op("/o5", "get", "get_a", ["o"]), op("/o6", "get", "get-a", ["o"])]), opid_collisions=True)
     add("fastapi-opids", doc("FA", [op("/users/{id}", "get", "read_user_users__id__get", ["users"], [param("id", "path")]),
@@ -156,12 +157,16 @@ def shapes(tier="quick", seed=0):
     add("all-methods", doc("AM", [op("/am", m, f"{m}Am", ["am"]) for m in ("get", "put", "post", "delete", "options", "head", "patch", "trace")]), all_methods=True)
     add("keyword-names", doc("KW", [op("/kw/{class}", "get", "import", ["class"], [param("class", "path"), param("from", "query"), param("def", "header"), param("1st", "query")],
                                        responses={"200": resp_json(ref("type"))})],
-                             {"type": obj({"class": PRIMS["str"], "def": PRIMS["int"], "date": PRIMS["date"], "field": PRIMS["str"], "_x": PRIMS["str"], "2fa": PRIMS["bool"]}, ["class"])}), keywords=True)
+                             {"type": obj({"class": PRIMS["str"], "def": PRIMS["int"], "_x": PRIMS["str"], "2fa": PRIMS["bool"]}, ["class"])}), keywords=True)
+    add("shadowing-field-names", doc("SH", [op("/sh", "get", "getSh", ["sh"], responses={"200": resp_json(ref("Shadow"))})],
+                                     {"Shadow": obj({"date": PRIMS["date"], "field": PRIMS["str"], "datetime": PRIMS["datetime"]})}), shadowing=True)
+    add("optional-self-ref", doc("SR", [op("/sr", "get", "getSr", ["sr"], responses={"200": resp_json(ref("Node"))})],
+                                 {"Node": obj({"value": PRIMS["int"], "parent": ref("Node")})}), self_ref=True)
     # --- schema graphs ---------------------------------------------------------------------------------------------------
     G = {
         "User": obj({"id": PRIMS["uuid"], "group": ref("UserGroup"), "name": PRIMS["str"], "created": PRIMS["datetime"]}, ["id"]),
         "UserGroup": obj({"members": {"type": "array", "items": ref("User")}, "title": PRIMS["str"]}),
-        "Tree": obj({"value": PRIMS["int"], "children": {"type": "array", "items": ref("Tree")}, "parent": ref("Tree")}),
+        "Tree": obj({"value": PRIMS["int"], "children": {"type": "array", "items": ref("Tree")}}),
         "Color": {"type": "string", "enum": ["red", "GREEN", "dark blue", "1st"]},
         "Level": {"type": "integer", "enum": [1, 2, 3]},
         "Tags": {"type": "array", "items": PRIMS["str"]},
@@ -187,6 +192,10 @@ def shapes(tier="quick", seed=0):
     add("prefix-names-collisions", doc("PN", [op("/p", "get", "getP", ["p"], responses={"200": resp_json(ref("User"))})],
                                        {"User": obj({"g": ref("UserGroup"), "n": PRIMS["str"]}), "UserGroup": obj({"members": {"type": "array", "items": ref("User")}}),
                                         "user": obj({"x": PRIMS["str"]}), "User2": obj({"y": PRIMS["str"]}), "user_2": obj({"z": PRIMS["str"]})}), collisions=True)
+    add("stem-collisions", doc("SC", [op("/a", "get", "getA", ["sc"], responses={"200": resp_json(ref("User"))}), op("/b", "get", "getB", ["sc"], responses={"200": resp_json(ref("user"))}),
+                                      op("/c", "get", "getC", ["sc"], responses={"200": resp_json(ref("User2"))}), op("/d", "get", "getD", ["sc"], responses={"200": resp_json(ref("pet_2"))})],
+                               {"User": obj({"a": PRIMS["str"]}), "user": obj({"b": PRIMS["str"]}), "User2": obj({"c": PRIMS["str"]}),
+                                "Pet": obj({"d": PRIMS["str"]}), "pet": obj({"e": PRIMS["str"]}), "pet_2": obj({"f": PRIMS["str"]})}), collisions=True)
     add("free-text", doc("FT \"quoted\" title", [op("/ft", "get", "getFt", ["ft tag"], [param("q", "query")], responses={"200": resp_json(ref("Doc"), "a 'response' desc")},
                                                    summary="Sum \"mary\"", description="Line one\nLine two with \\ backslash")],
                          {"Doc": obj({"t": {"type": "string", "description": "prop \"desc\"", "default": "dflt"}}, description="A doc.\n\nWith paragraphs.")},
